@@ -1648,7 +1648,7 @@ class ASTCreateTableStatement(ASTStatementBase):
                 name=hashmap[old_column.column_type.name.upper()],
                 params=None if remove_param else old_column.column_type.params)
             new_columns.append(ASTDefineColumnExpression(**column_params))
-        params["columns"] = new_columns
+        params["columns"] = tuple(new_columns)
         return ASTCreateTableStatement(**params)
 
     def append_column(self, column: ASTDefineColumnExpression):
